@@ -161,6 +161,13 @@ def handle (j : Json) : IO Unit := do
         (if spec then "" else s!"{jstr (jget j "target")} reached the backend (base {show' ep.basePath}, preserve={ep.preserve}) as {jstr (jget one "line")}")
         (Json.mkObj [("path", toJson (show' want.path))])
     | _ => emit case false decoyOk "stack.multiple-requests" (if decoyOk then "" else "decoy-contacted") s!"backend saw {seen.length} requests"
+  | "mixup" =>
+    -- many clients at once, two endpoints with their own base paths: the target is a function of (this request, the
+    -- endpoint it is sent to) — `buildTargetURL` has no other input
+    if jstr (jget impl "start_err") != "" then emit case false true "stack.start-failed" "" (jstr (jget impl "start_err")) else
+    let wrong := jnat (jget impl "wrong")
+    emit case (wrong == 0) (wrong == 0) s!"mixup.{jstr (jget j "engine")}" (if wrong == 0 then "" else "target-built-from-another-request")
+      (if wrong == 0 then "" else s!"{jstr (jget j "engine")}: {wrong} of {jnat (jget impl "requests_seen")} concurrent requests reached a backend with a path that is not theirs under that endpoint's base; {jstr (jget impl "first")}")
   | "stack-error" => emit case false true "stack.start-failed" "" (jstr (jget impl "err"))
   | _ => emit case false true "unknown-kind" "" s!"unknown kind {kind}"
 
